@@ -18,7 +18,9 @@ Inductive op :=
 Inductive c17case :=
 | KHist (c : cfg) (ops : list op)
 (* package level: Voxels.ReadBlock / WriteBlock on one block *)
-| KXfer (c : cfg) (g : geom) (stride : Z) (b : pt) (data blk : bytes) (rd wr : res bytes).
+| KXfer (c : cfg) (g : geom) (stride : Z) (b : pt) (data blk : bytes) (rd wr : res bytes)
+(* the server process died while serving the history *)
+| KCrash (c : cfg).
 
 Definition res_eqb {A} (eqb : A -> A -> bool) (a b : res A) : bool :=
   match a, b with Ok x, Ok y => eqb x y | Err, Err => true | Panic, Panic => true | _, _ => false end.
@@ -70,6 +72,7 @@ Definition model_ok (k : c17case) : bool :=
   | KXfer c g stride b data blk rd wr =>
     res_eqb bytes_eqb (read_block c g stride data blk b) rd
     && res_eqb bytes_eqb (write_block c g stride data blk b) wr
+  | KCrash _ => true
   end.
 
 (* ---- reference semantics ---- *)
@@ -214,10 +217,45 @@ Fixpoint run_spec (c : cfg) (ws : list wr) (ops : list op) : nat :=
     end
   end.
 
+(* single-block transfer: the voxels of the geometry that lie in block b, and where each sits in
+   the request buffer and in the block *)
+Fixpoint set_nthN (l : bytes) (n : nat) (v : N) : bytes :=
+  match l, n with
+  | [], _ => []
+  | _ :: t, O => v :: t
+  | h :: t, S n' => h :: set_nthN t n' v
+  end.
+Definition ref_didx (c : cfg) (g : geom) (stride : Z) (p : pt) : Z :=
+  let r := (px p - px (goff g), py p - py (goff g), pz p - pz (goff g)) in
+  match gshape g with
+  | XY => py r * stride + px r * bpv c
+  | XZ => pz r * stride + px r * bpv c
+  | YZ => pz r * stride + py r * bpv c
+  | Vol3d => (pz r * gh g + py r) * (gw g * bpv c) + px r * bpv c
+  end.
+Definition ref_bidx (c : cfg) (b p : pt) : Z :=
+  let q := (px p - px b * px (bsz c), py p - py b * py (bsz c), pz p - pz b * pz (bsz c)) in
+  ((pz q * py (bsz c) + py q) * px (bsz c) + px q) * bpv c.
+Definition xfer_expect (to_block : bool) (c : cfg) (g : geom) (stride : Z) (b : pt) (data blk : bytes) : bytes :=
+  let part := filter (fun p => pt_eqb (fdiv_pt p (bsz c)) b) (geom_voxels g) in
+  fold_left (fun acc p =>
+     fold_left (fun acc ch =>
+        let di := Z.to_nat (ref_didx c g stride p + ch) in
+        let bi := Z.to_nat (ref_bidx c b p + ch) in
+        if to_block then set_nthN acc bi (nth di data 0%N) else set_nthN acc di (nth bi blk 0%N))
+        (zseq (bpv c)) acc) part (if to_block then blk else data).
+
 Definition spec_class (k : c17case) : nat :=
   match k with
   | KHist c ops => run_spec c [] ops
-  | KXfer c g stride b data blk rd wr => if is_panic rd || is_panic wr then 8%nat else 0%nat
+  | KXfer c g stride b data blk rd wr =>
+    match rd, wr with
+    | Ok d', Ok b' =>
+      if bytes_eqb d' (xfer_expect false c g stride b data blk) && bytes_eqb b' (xfer_expect true c g stride b data blk)
+      then 0%nat else 10%nat
+    | _, _ => 8%nat
+    end
+  | KCrash _ => 8%nat
   end.
 
 Fixpoint classify_from (i : nat) (l : list c17case) : list (nat * nat) :=
